@@ -407,4 +407,12 @@ def smallestFirst (sized : List (String × Nat)) : Option String :=
   | [] => none
   | p :: ps => some (ps.foldl (fun best q => if q.2 < best.2 then q else best) p).1
 
+/-- `Convention.get_depth_coordinate_for_data_array`: the depth coordinates whose dimensions
+are all dimensions of the data array; exactly one must match (`none` = raises
+`NoSuchCoordinateError` for no candidate, `ValueError` for several). -/
+def depthCoordFor (coords : List (String × List String)) (dims : List String) : Option String :=
+  match coords.filter (fun c => c.2.all (· ∈ dims)) with
+  | [c] => some c.1
+  | _ => none
+
 end Ems.Depth
